@@ -56,9 +56,8 @@ Definition idx (data : list N) (i : N) : outcome N :=
   | None => Panic 386
   end.
 
-(* the closure given to SurfaceOwned::new_with for one position *)
-Definition pixel_at (channels w : N) (data : list N) (row col : N) : outcome rgba :=
-  let i := row * w + col in
+(* the closure given to SurfaceOwned::new_with, for the pixel number i = row * width + col *)
+Definition pixel_i (channels : N) (data : list N) (i : N) : outcome rgba :=
   if channels =? 4 then
     let off := 4 * i in
     let* r := idx data off in let* g := idx data (off + 1) in
@@ -71,6 +70,9 @@ Definition pixel_at (channels w : N) (data : list N) (row col : N) : outcome rgb
     Ok (r, g, b, 255)
   else
     let* v := idx data i in Ok (v, v, v, 255).
+
+Definition pixel_at (channels w : N) (data : list N) (row col : N) : outcome rgba :=
+  pixel_i channels data (row * w + col).
 
 Fixpoint collect {A} (l : list (outcome A)) : outcome (list A) :=
   match l with
@@ -124,3 +126,15 @@ Definition image_ser (img : image) : json :=
   JObj [(s2l "size", ser_size (i_h img, i_w img));
         (s2l "channels", JNum (NU 4));
         (s2l "data", JStr (encode_chunks (map rgba_bytes (i_pix img))))].
+
+(* ------------------------------------------------------------ specification *)
+
+(* the pixels a data buffer in the 4 / 3 / 1 channel layout stands for *)
+Fixpoint px4 (data : list N) : list rgba :=
+  match data with r :: g :: b :: a :: rest => (r, g, b, a) :: px4 rest | _ => [] end.
+Fixpoint px3 (data : list N) : list rgba :=
+  match data with r :: g :: b :: rest => (r, g, b, 255) :: px3 rest | _ => [] end.
+Definition px1 (data : list N) : list rgba := map (fun v => (v, v, v, 255)) data.
+
+Definition pixels_of (c : N) (data : list N) : list rgba :=
+  if c =? 4 then px4 data else if c =? 3 then px3 data else px1 data.
